@@ -597,7 +597,9 @@ static void op_file(const char *op)
         logf_(" nranges=%d\n", cnt);
         if (argi("update", 1)) { free(SNAP[s].p); SNAP[s].p = p; SNAP[s].n = n; } else free(p);
     } else if (!strcmp(op, "pread")) {
-        long long off = argireq("off"), len = argireq("len"); int fd = open(path, O_RDONLY);
+        long long off = argi("off", 0), len = argireq("len");
+        if (arg("voff")) { MPI_Offset vb = 0; ncmpi_inq_varoffset(get_ncid(), (int)argireq("voff"), &vb); off += vb; }
+        int fd = open(path, O_RDONLY);
         unsigned char *p = calloc(len + 1, 1); ssize_t r = fd >= 0 ? pread(fd, p, len, off) : -1; if (fd >= 0) close(fd);
         fprintf(g_log, "R %d pread got=%zd", g_line, r); if (r > 0) logbuf(p, r, 0); logf_("\n"); free(p);
     } else if (!strcmp(op, "prefill")) {   /* create a file of given size filled with a byte pattern */
